@@ -383,7 +383,21 @@ def rule_dropabsent(E, R):
     rule = "R03-dropabsent"
     h = E.hir(COMPUTE_FN)
     if not h:
+        # the per-element evaluation may be a private function of the same file instead of a nested one: the function called
+        # from the run-time closures of compile_with_compiler that maps the elements (filter_map_to)
+        hc0 = E.hir(COMPILE_FN)
+        cands = {}
+        if hc0:
+            for c_ in exprs(hc0["body"], ("Call", "MethodCall")):
+                hh = E.hir_by_dp.get(c_.get("resolved_dp") or c_.get("callee_dp") or "")
+                if hh and "body" in hh and hh.get("span", "").rsplit(":", 1)[0] == hc0.get("span", "").rsplit(":", 1)[0] and \
+                        any(m_["m"] == "filter_map_to" for m_ in exprs(hh["body"], "MethodCall")):
+                    cands[hh["dp"]] = hh
+        if len(cands) == 1:
+            h = list(cands.values())[0]
+    if not h:
         return R.cannot(rule, COMPUTE_FN, "anchor not found")
+    COMPUTE = norm(h["path"])
     S = sem.Sem(E, h)
     pRes = lambda v: _ty(v.node).startswith("core::result::Result<types::LhsValue")
     pVal = lambda v: _ty(v.node) == "types::LhsValue"
@@ -398,7 +412,7 @@ def rule_dropabsent(E, R):
                     _type_param_rooted(S, inner["args"][0], x.frame):
                 adm = sem.admitted_tuples(x.pc, [pRes], [["Result::Ok", "Result::Err"]])
                 found_err = found_err or adm == {("Result::Err",)}
-    R.check(found_err, rule, COMPUTE_FN, "absent mapped argument -> Err(Array(return_type))", where=h["span"])
+    R.check(found_err, rule, COMPUTE_FN if COMPUTE == COMPUTE_FN else COMPUTE, "absent mapped argument -> Err(Array(return_type))", where=h["span"])
     # element results: filter_map / filter_map_to
     def value_variants(pc):
         """LhsValue variants a site is restricted to, read from `is` literals on the value itself or on the
@@ -432,7 +446,7 @@ def rule_dropabsent(E, R):
                 good = True
             if x.node["m"] in ("map", "map_to", "flat_map"):
                 bad.append(x.node["m"])
-        R.check(good and not bad, rule, COMPUTE_FN, "%s elements go through %s (absent results dropped)" % (last_seg(variant), meth),
+        R.check(good and not bad, rule, COMPUTE_FN if COMPUTE == COMPUTE_FN else COMPUTE, "%s elements go through %s (absent results dropped)" % (last_seg(variant), meth),
                 "found also %s" % bad if bad else "", h["span"])
     # non map-each: Some(v) => Ok(v), None => Err(return_type)
     hc = E.hir(COMPILE_FN)
